@@ -1,12 +1,200 @@
 package main
 
 import (
+	"fmt"
 	"go/ast"
 	"go/token"
 	"go/types"
+	"strconv"
 )
 
-// rewriteYields is implemented in a later step (schedule exploration of the RPC packages).
+// rewriteYields makes every synchronisation operation of a file a cooperative scheduling point of the
+// simulator (package simrt). With no scheduler installed every inserted call is a no-op / plain delegation:
+//
+//	X.Lock() / X.RLock()          -> simrt.LockW(&X, site) / simrt.LockR(&X, site)      (TryLock loop with yields)
+//	X.Unlock() / X.RUnlock()      -> simrt.UnlockW(&X, site) / simrt.UnlockR(&X, site)  (also when deferred)
+//	ch <- v, <-ch, select, close  -> simrt.Yield(site) before and after the statement / at the head of every select case
+//	go f(a, b)                    -> { a0 := a; b0 := b; simrt.Go(site, func() { f(a0, b0) }) }
+//	m[k] = v, delete(m, k)        -> simrt.MapWrite(site) before (lock-discipline probe)
+//
+// All rewrites are semantics preserving under the Go memory model (they only add scheduling points).
 func rewriteYields(fset *token.FileSet, f *ast.File, info *types.Info, site string, stats map[string]int) int {
-	return 0
+	n := 0
+	siteAt := func(p token.Pos) ast.Expr {
+		return &ast.BasicLit{Kind: token.STRING, Value: strconv.Quote(fmt.Sprintf("%s:%d", site, fset.Position(p).Line))}
+	}
+	call := func(fn string, args ...ast.Expr) *ast.CallExpr {
+		return &ast.CallExpr{Fun: &ast.SelectorExpr{X: ast.NewIdent("simrt__"), Sel: ast.NewIdent(fn)}, Args: args}
+	}
+	yieldStmt := func(p token.Pos) ast.Stmt { return &ast.ExprStmt{X: call("Yield", siteAt(p))} }
+
+	// mutexPtr returns an expression of type *sync.Mutex / *sync.RWMutex for the receiver of a Lock-family call
+	mutexPtr := func(recv ast.Expr) (ast.Expr, bool) {
+		tv, ok := info.Types[recv]
+		if !ok || tv.Type == nil {
+			return nil, false
+		}
+		t := tv.Type
+		isPtr := false
+		if p, ok := t.(*types.Pointer); ok {
+			t, isPtr = p.Elem(), true
+		}
+		named, ok := t.(*types.Named)
+		if !ok || named.Obj().Pkg() == nil || named.Obj().Pkg().Path() != "sync" {
+			return nil, false
+		}
+		if nm := named.Obj().Name(); nm != "Mutex" && nm != "RWMutex" {
+			return nil, false
+		}
+		if isPtr {
+			return recv, true
+		}
+		return &ast.UnaryExpr{Op: token.AND, X: recv}, true
+	}
+	lockCall := func(c *ast.CallExpr) (*ast.CallExpr, bool) {
+		sel, ok := c.Fun.(*ast.SelectorExpr)
+		if !ok || len(c.Args) != 0 {
+			return nil, false
+		}
+		fn := map[string]string{"Lock": "LockW", "RLock": "LockR", "Unlock": "UnlockW", "RUnlock": "UnlockR"}[sel.Sel.Name]
+		if fn == "" {
+			return nil, false
+		}
+		ptr, ok := mutexPtr(sel.X)
+		if !ok {
+			return nil, false
+		}
+		return call(fn, ptr, siteAt(c.Pos())), true
+	}
+	hasRecv := func(node ast.Node) bool {
+		found := false
+		ast.Inspect(node, func(x ast.Node) bool {
+			if _, isFn := x.(*ast.FuncLit); isFn {
+				return false
+			}
+			if u, ok := x.(*ast.UnaryExpr); ok && u.Op == token.ARROW {
+				found = true
+			}
+			return !found
+		})
+		return found
+	}
+	isMapIndex := func(e ast.Expr) bool {
+		ix, ok := e.(*ast.IndexExpr)
+		if !ok {
+			return false
+		}
+		tv, ok := info.Types[ix.X]
+		if !ok || tv.Type == nil {
+			return false
+		}
+		_, isMap := tv.Type.Underlying().(*types.Map)
+		return isMap
+	}
+
+	var rewriteList func(list []ast.Stmt) []ast.Stmt
+	rewriteList = func(list []ast.Stmt) []ast.Stmt {
+		var out []ast.Stmt
+		for _, st := range list {
+			switch s := st.(type) {
+			case *ast.ExprStmt:
+				if c, ok := s.X.(*ast.CallExpr); ok {
+					if lc, ok := lockCall(c); ok {
+						s.X = lc
+						n++
+						stats["yield_lock_ops"]++
+						out = append(out, s)
+						continue
+					}
+					if id, ok := c.Fun.(*ast.Ident); ok && id.Name == "close" && len(c.Args) == 1 {
+						out = append(out, yieldStmt(s.Pos()), s, yieldStmt(s.Pos()))
+						n++
+						stats["yield_close"]++
+						continue
+					}
+					if id, ok := c.Fun.(*ast.Ident); ok && id.Name == "delete" && len(c.Args) == 2 {
+						out = append(out, &ast.ExprStmt{X: call("MapWrite", siteAt(s.Pos()))}, s)
+						n++
+						stats["map_write_probes"]++
+						continue
+					}
+				}
+				if hasRecv(s) {
+					out = append(out, yieldStmt(s.Pos()), s, yieldStmt(s.Pos()))
+					n++
+					stats["yield_recv"]++
+					continue
+				}
+			case *ast.DeferStmt:
+				if lc, ok := lockCall(s.Call); ok {
+					s.Call = lc
+					n++
+					stats["yield_lock_ops"]++
+				}
+			case *ast.SendStmt:
+				out = append(out, yieldStmt(s.Pos()), s, yieldStmt(s.Pos()))
+				n++
+				stats["yield_send"]++
+				continue
+			case *ast.AssignStmt:
+				if hasRecv(s) {
+					out = append(out, yieldStmt(s.Pos()), s, yieldStmt(s.Pos()))
+					n++
+					stats["yield_recv"]++
+					continue
+				}
+				for _, l := range s.Lhs {
+					if isMapIndex(l) {
+						out = append(out, &ast.ExprStmt{X: call("MapWrite", siteAt(s.Pos()))})
+						n++
+						stats["map_write_probes"]++
+						break
+					}
+				}
+			case *ast.SelectStmt:
+				out = append(out, yieldStmt(s.Pos()))
+				n++
+				stats["yield_select"]++
+			case *ast.GoStmt:
+				// bind the arguments now (as the go statement does), run the call under the simulator's scheduler
+				var pre []ast.Stmt
+				args := make([]ast.Expr, len(s.Call.Args))
+				for i, a := range s.Call.Args {
+					name := fmt.Sprintf("goarg%d__sim", i)
+					pre = append(pre, &ast.AssignStmt{Lhs: []ast.Expr{ast.NewIdent(name)}, Tok: token.DEFINE, Rhs: []ast.Expr{a}})
+					args[i] = ast.NewIdent(name)
+				}
+				inner := &ast.CallExpr{Fun: s.Call.Fun, Args: args, Ellipsis: s.Call.Ellipsis}
+				goCall := &ast.ExprStmt{X: call("Go", siteAt(s.Pos()), &ast.FuncLit{Type: &ast.FuncType{Params: &ast.FieldList{}}, Body: &ast.BlockStmt{List: []ast.Stmt{&ast.ExprStmt{X: inner}}}})}
+				out = append(out, &ast.BlockStmt{List: append(pre, goCall)})
+				n++
+				stats["yield_go"]++
+				continue
+			}
+			out = append(out, st)
+		}
+		return out
+	}
+
+	ast.Inspect(f, func(node ast.Node) bool {
+		switch x := node.(type) {
+		case *ast.BlockStmt:
+			x.List = rewriteList(x.List)
+		case *ast.CaseClause:
+			x.Body = rewriteList(x.Body)
+		case *ast.CommClause:
+			x.Body = append([]ast.Stmt{yieldStmt(x.Pos())}, rewriteList(x.Body)...)
+			n++
+		case *ast.RangeStmt:
+			if tv, ok := info.Types[x.X]; ok && tv.Type != nil {
+				if _, isChan := tv.Type.Underlying().(*types.Chan); isChan && x.Body != nil {
+					x.Body.List = append([]ast.Stmt{yieldStmt(x.Pos())}, x.Body.List...)
+					n++
+					stats["yield_range_chan"]++
+				}
+			}
+		}
+		return true
+	})
+	return n
 }
